@@ -229,12 +229,14 @@ def rule_a2(F):
         r.missing("leaf table (codegen::check::check_roto_type)")
         return r
     # rustc layouts from the TypeId::of::<T>() calls of the gate
-    cb = F.body("codegen::check::check_roto_type")
     lay = {}
-    for _, t in mir.calls(cb):
-        f = t["f"]
-        if "garg_layout" in f:
-            lay[norm_rust(f["gargs"][0])] = tuple(f["garg_layout"])
+    for cb in F.bodies_in(["src/codegen/check.rs"]):          # the gate and the private helpers that hold its table
+        if not cb.mir or "::tests::" in cb.path:
+            continue
+        for _, t in mir.calls(cb):
+            f = t["f"]
+            if "garg_layout" in f and (f.get("def") or "").endswith("TypeId::of"):
+                lay[norm_rust(f["gargs"][0])] = tuple(f["garg_layout"])
     pb, rows = prim_layout_rows(F)
     if pb is None or not rows:
         r.missing("Primitive::layout")
@@ -396,17 +398,34 @@ def rule_a4(F):
             eb = F.body(p)
         if p.endswith("::instruction") and "codegen::" in p:
             ib = F.body(p)
+    from .. import seq as _seq
+    S = _seq.Sequences(F, {"return_ptr": "RET", "ctx": "CTX", "context": "CTX", "args": "ARGS", "parameters": "ARGS", "runtime_functions": "FN", "func": "FN"})
+    ORDER = ["FN", "RET", "CTX", "ARGS"]
+
+    def judge(seqs, need):
+        """every possible sequence lists what it has in the order FN/RET < CTX < ARGS, and the full one occurs"""
+        if not seqs:
+            return False, "nothing is appended"
+        for sq in seqs:
+            if not _seq.sorted_by(sq, ORDER):
+                return False, "possible order %s" % (list(sq),)
+        if not any(all(t in sq for t in need) for sq in seqs):
+            return False, "no path appends all of %s (possible: %s)" % (need, sorted(map(list, seqs))[:4])
+        return True, ""
     if db is None:
         r.missing("ModuleBuilder::declare_function")
     else:
-        st = stmt_list(db.hir["value"])
-        dld = hir.LocalDefs(db.hir)
-        has_push = lambda s: any(c["m"] == "push" for c in hir.nodes(s, "mcall"))
-        idx = order_in(st, [lambda s: cond_mentions(s, "return_ptr", dld) and has_push(s), lambda s: cond_mentions(s, "context", dld) and has_push(s),
-                            lambda s: any(n.get("k") == "loop" for n in hir.walk(s)) and has_push(s)])
-        r.inst("declare_function", {"return_ptr": idx[0], "context": idx[1], "parameters": idx[2]})
-        if None in idx or not (idx[0] < idx[1] < idx[2]):
-            r.bad(db.path, "parameter order", relfile(db.file), db.line, "the signature must list return pointer, then context, then parameters (statement positions %s)" % idx)
+        a = S.analyse(db)
+        sites = [(bi, t) for bi, t in mir.calls(db) if (mir.callee_def(t) or "").endswith("cranelift_module::Module::declare_function") and len(t["args"]) >= 4]
+        if not sites:
+            r.missing("the Module::declare_function call in ModuleBuilder::declare_function")
+        for bi, t in sites:
+            ident = a["ident_of_place"](t["args"][3][1])
+            seqs = (a["sin"][bi] or {}).get((ident[0], ident[1] + ("params",)))
+            ok, why = judge(seqs, ["RET", "CTX", "ARGS"])
+            r.inst("declare_function", {"line": t.get("line"), "possible_parameter_sequences": sorted(map(list, seqs or []))[:8], "ok": ok})
+            if not ok:
+                r.bad(db.path, "parameter order", relfile(db.file), db.line, "the signature must list return pointer, then context, then parameters (%s)" % why)
     if eb is None:
         r.missing("FuncGen::entry_block")
     else:
@@ -456,39 +475,33 @@ def rule_a4(F):
     if ib is None:
         r.missing("FuncGen::instruction")
     else:
-        ms = hir.find_match_on(ib.hir["value"], "Instruction::", min_arms=10)
-        ild = hir.LocalDefs(ib.hir)
-
-        def arg_vec(body):
-            """The local holding the argument vector: what the arm passes to `.call(func, &args)`."""
-            for c in hir.nodes(body, "mcall"):
-                if c["m"] in ("call", "call_indirect") and len(c["args"]) >= 2:
-                    l = hir.res_local(hir.peel_refs(hir.strip(c["args"][-1])))
-                    if l is not None:
-                        return l
-            return None
-
-        def on_vec(c, V):
-            return V is not None and hir.res_local(hir.peel_refs(hir.strip(c["recv"]))) == V
-        for rw in (hir.table(ms[0]) if ms else []):
-            if any(a.startswith("Instruction::Call{") for a in rw["alts"]):
-                st = stmt_list(rw["body"])
-                V = arg_vec(rw["body"])
-                has_push = lambda s: any(c["m"] == "push" and on_vec(c, V) for c in hir.nodes(s, "mcall"))
-                idx = order_in(st, [lambda s: cond_mentions(s, "return_ptr", ild) and has_push(s), lambda s: cond_mentions(s, "ctx", ild) and has_push(s),
-                                    lambda s: any(n.get("k") == "loop" for n in hir.walk(s)) and has_push(s)])
-                r.inst("Instruction::Call", {"return_ptr": idx[0], "ctx": idx[1], "args": idx[2]})
-                if None in idx or not (idx[0] < idx[1] < idx[2]):
-                    r.bad(ib.path, "Call argument order", relfile(ib.file), rw["line"], "call arguments must be assembled as return pointer, context, arguments (statement positions %s)" % idx)
-            if any(a.startswith("Instruction::CallRuntime{") for a in rw["alts"]):
-                st = stmt_list(rw["body"])
-                V = arg_vec(rw["body"])
-                idx = order_in(st, [lambda s: any(c["m"] == "push" and on_vec(c, V) and mentions_field(ild, c["args"][0], "runtime_functions") for c in hir.nodes(s, "mcall")),
-                                    lambda s: any(c["m"] == "extend" and on_vec(c, V) for c in hir.nodes(s, "mcall"))
-                                    or (any(n.get("k") == "loop" for n in hir.walk(s)) and any(c["m"] == "push" and on_vec(c, V) for c in hir.nodes(s, "mcall")))])
-                r.inst("Instruction::CallRuntime", {"fn_pointer": idx[0], "args": idx[1]})
-                if None in idx or not idx[0] < idx[1]:
-                    r.bad(ib.path, "CallRuntime argument order", relfile(ib.file), rw["line"], "the trampoline takes the closure pointer first, then the (out pointer and) arguments")
+        a = S.analyse(ib)
+        seen_kinds = set()
+        for bi, t in mir.calls(ib):
+            d = mir.callee_def(t) or ""
+            if hir.last(d) not in ("call", "call_indirect") or "InstBuilder" not in d or len(t["args"]) < 3:
+                continue
+            got = S.at_call(ib, a, bi, t["args"][-1])
+            seqs = got[1] if got else None
+            if not seqs:
+                continue
+            tags = {x for sq in seqs for x in sq}
+            if "FN" in tags:
+                seen_kinds.add("CallRuntime")
+                ok, why = judge(seqs, ["FN", "ARGS"])
+                ok = ok and all((not sq) or sq[0] == "FN" for sq in seqs)
+                r.inst("Instruction::CallRuntime", {"line": t.get("line"), "possible_argument_sequences": sorted(map(list, seqs))[:8], "ok": ok})
+                if not ok:
+                    r.bad(ib.path, "CallRuntime argument order", relfile(ib.file), t.get("line"), "the trampoline takes the closure pointer first, then the (out pointer and) arguments (%s)" % (why or "the closure pointer is not first"))
+            elif tags & {"RET", "CTX"}:
+                seen_kinds.add("Call")
+                ok, why = judge(seqs, ["RET", "CTX", "ARGS"])
+                r.inst("Instruction::Call", {"line": t.get("line"), "possible_argument_sequences": sorted(map(list, seqs))[:8], "ok": ok})
+                if not ok:
+                    r.bad(ib.path, "Call argument order", relfile(ib.file), t.get("line"), "call arguments must be assembled as return pointer, context, arguments (%s)" % why)
+        for k_ in ("Call", "CallRuntime"):
+            if k_ not in seen_kinds:
+                r.missing("the cranelift call emitted for Instruction::%s (argument vector not found)" % k_)
     # fn pointer types of RotoFunc
     n = 0
     for i in F.impls():
@@ -729,10 +742,16 @@ def _abi_flow(F, b, variant_idx, irtype, tables, depth=0):
     nb = len(b.blocks)
     defs = mir.Defs(b)
     discr_locals = set()
+    discr_ext = {}            # local holding the discriminant of an ArgumentExtension value -> the local it was read from
+    ext_vidx = {}             # variant name (lower case) -> variant index, as seen in the aggregates of this body
     for blk in b.blocks:
         for st in blk["stmts"]:
             if st["k"] == "assign" and st["rv"]["k"] == "discr" and st["rv"].get("ty", "").endswith(irtype):
                 discr_locals.add(st["p"][0])
+            if st["k"] == "assign" and st["rv"]["k"] == "discr" and st["rv"].get("ty", "").endswith("ArgumentExtension") and len(st["rv"]["p"]) == 1:
+                discr_ext[st["p"][0]] = st["rv"]["p"][0]
+            if st["k"] == "assign" and st["rv"]["k"] == "agg" and str(st["rv"].get("adt", "")).endswith("ArgumentExtension"):
+                ext_vidx[str(st["rv"].get("variant", "")).lower()] = st["rv"].get("vidx")
 
     def tyclass(op):
         if not mir.is_place_op(op):
@@ -831,6 +850,13 @@ def _abi_flow(F, b, variant_idx, irtype, tables, depth=0):
             if mir.is_place_op(o) and o[1][0] in discr_locals:
                 tg = [x for v, x in t["targets"] if v == variant_idx]
                 succs = tg if tg else [t["otherwise"]]
+            elif mir.is_place_op(o) and o[1][0] in discr_ext and env.get(discr_ext[o[1][0]]) and all(tc == "E" and e in ext_vidx for e, tc in env[discr_ext[o[1][0]]]):
+                # a second decision on the extension that was chosen for this variant: only the edges of the possible values
+                want_ = {ext_vidx[e] for e, _ in env[discr_ext[o[1][0]]]}
+                succs = []
+                for v_ in want_:
+                    tg = [x for v, x in t["targets"] if v == v_]
+                    succs += tg if tg else [t["otherwise"]]
             else:
                 succs = [x for _, x in t["targets"]] + ([t["otherwise"]] if t.get("otherwise") is not None else [])
         else:
@@ -908,25 +934,55 @@ def rule_a10(F):
                 import_sigs |= set(sigs)
         if not import_sigs:
             continue
-        pushes = []
-        for bi, t in mir.calls(b):
-            if not (mir.callee(t) or "").endswith("::push") or len(t["args"]) != 2 or not mir.is_place_op(t["args"][0]):
-                continue
-            ds = defs.whole_defs(t["args"][0][1][0])
-            if len(ds) != 1 or ds[0][2] != "assign" or ds[0][3]["rv"]["k"] != "ref":
-                continue
-            pl = ds[0][3]["rv"]["p"]
-            if root_local(pl[0]) in import_sigs and any(isinstance(x, list) and x[0] == "f" and x[-1] == "params" for x in pl[1:]):
-                pushes.append((bi, t))
+        def pushes_on(bb, sig_roots, depth=0):
+            """(body, block, call) of every push onto `.params` of one of the signatures - in this body, or in the crate helper that
+            built and returned the signature"""
+            out = []
+            bdefs = mir.Defs(bb)
+
+            def rl(local, seen=()):
+                ds = bdefs.whole_defs(local)
+                if len(ds) != 1 or local in seen or ds[0][2] != "assign":
+                    return local
+                rv = ds[0][3]["rv"]
+                if rv["k"] in ("ref", "rawptr"):
+                    return rl(rv["p"][0], seen + (local,))
+                if rv["k"] == "use" and mir.is_place_op(rv["o"]):
+                    return rl(rv["o"][1][0], seen + (local,))
+                return local
+            for bi, t in mir.calls(bb):
+                if not (mir.callee(t) or "").endswith("::push") or len(t["args"]) != 2 or not mir.is_place_op(t["args"][0]):
+                    continue
+                ds = bdefs.whole_defs(t["args"][0][1][0])
+                if len(ds) != 1 or ds[0][2] != "assign" or ds[0][3]["rv"]["k"] != "ref":
+                    continue
+                pl = ds[0][3]["rv"]["p"]
+                if rl(pl[0]) in sig_roots and any(isinstance(x, list) and x[0] == "f" and x[-1] == "params" for x in pl[1:]):
+                    out.append((bb, bi, t))
+            if depth < 2:
+                for sr in sig_roots:
+                    for d in bdefs.whole_defs(sr):
+                        if d[2] == "call":
+                            hb = F.body(mir.callee(d[3]) or "")
+                            if hb is not None and hb.mir and hb.path != bb.path:
+                                hdefs = mir.Defs(hb)
+
+                                def hrl(local, seen=()):
+                                    ds = hdefs.whole_defs(local)
+                                    if len(ds) == 1 and ds[0][2] == "assign" and local not in seen and ds[0][3]["rv"]["k"] == "use" and mir.is_place_op(ds[0][3]["rv"]["o"]):
+                                        return hrl(ds[0][3]["rv"]["o"][1][0], seen + (local,))
+                                    return local
+                                out += pushes_on(hb, {hrl(0)}, depth + 1)
+            return out
         tables = {}
-        for bi, t in pushes:
+        for pb, bi, t in pushes_on(b, import_sigs):
             nsites += 1
             v = t["args"][1]
             wrong = {}
             seen_kinds = {}
             for name in NARROW_UNSIGNED + NARROW_SIGNED:
                 idx = vnames.index(name)
-                _, at_call = _abi_flow(F, b, idx, "IrType", tables)
+                _, at_call = _abi_flow(F, pb, idx, "IrType", tables)
                 kinds = at_call.get(bi, {}).get(v[1][0]) if mir.is_place_op(v) and len(v[1]) == 1 else None
                 want = "uext" if name in NARROW_UNSIGNED else "sext"
                 seen_kinds[name] = sorted("%s/%s" % k for k in (kinds or []))
@@ -936,9 +992,9 @@ def rule_a10(F):
                 bad = [e for e, tc in kinds if (tc == "var" and e != want) or (tc == "narrow" and e == "none")]
                 if bad:
                     wrong[name] = "%s (expected %s)" % (", ".join(sorted(set(bad))), want)
-            r.inst("parameter pushed onto an imported signature", {"fn": b.path, "line": t["line"], "extension_by_variant": seen_kinds})
+            r.inst("parameter pushed onto an imported signature", {"fn": pb.path, "line": t["line"], "extension_by_variant": seen_kinds})
             if wrong:
-                r.bad(b.path, "host parameter without the extension of its type", relfile(b.file), t["line"],
+                r.bad(pb.path, "host parameter without the extension of its type", relfile(pb.file), t["line"],
                       "the signature declared for a function compiled by Rust (Linkage::Import) gets a parameter whose extension is wrong for %s: the upper bits of the argument register are "
                       "undefined and an optimised host reads them (e.g. a registered `fn(x: u8) -> u32 { x as u32 }` called with `a + b` = 300 returns 300, not 44)"
                       % "; ".join("%s: %s" % kv for kv in sorted(wrong.items())))
